@@ -427,7 +427,17 @@ def run(ctx):
         calls_ = [n for n in sx.walk(go['get_origin']['body']) if n.get('k') == 'mcall' and n['m'] == 'origin']
         prm_ = [sx.pat_idents(p_['pat'])[0] for p_ in go['get_origin']['sig']['params'] if p_.get('k') == 'typed']
         lp = prm_[0] if prm_ else 'locate'
-        if len(calls_) == 1:
+        # the result IS the lookup at the token's first byte: a second lookup, or a None replaced by something (match / or_else / unwrap_or),
+        # gives synthesised text (`__LINE__, a caller-supplied define) the origin of a neighbouring byte
+        first_ = [c_ for c_ in calls_ if sq(c_['args'][0]) == '%s.offset' % lp] if calls_ else []
+        fallback_ = [n for n in sx.walk(go['get_origin']['body']) if n.get('k') == 'mcall' and n['m'] in ('or', 'or_else', 'unwrap_or', 'unwrap_or_else', 'xor', 'map_or', 'map_or_else')]
+        if len(calls_) >= 2 and first_:
+            w5.fail('%s:get_origin' % API, where(go['get_origin']),
+                    'get_origin looks the origin up a second time (`%s`) besides the token\'s first byte: when the first lookup is None — text synthesised by the preprocessor, which '
+                    'must have no origin — the caller gets the origin of another byte' % sq([c_ for c_ in calls_ if c_ not in first_][0])[:50])
+        elif len(calls_) == 1 and fallback_ and any(any(z is calls_[0] for z in sx.walk(f_['recv'])) for f_ in fallback_):
+            w5.fail('%s:get_origin' % API, where(go['get_origin']), 'get_origin replaces a None of the lookup (`.%s(..)`): synthesised text must have no origin' % fallback_[0]['m'])
+        elif len(calls_) == 1:
             a0 = sq(calls_[0]['args'][0])
             lets_ = {sx.pat_idents(st_['pat'])[0]: sq(st_['init']) for st_ in go['get_origin']['body']['stmts'] if st_['k'] == 'let' and 'init' in st_ and st_['pat'].get('k') == 'ident'}
             a0 = lets_.get(a0, a0)
@@ -466,6 +476,14 @@ def run(ctx):
         if muts:
             w6.fail('sv-parser-pp:%s:buffer-modified' % name, where_, '%s modifies the read buffer (%s) before preprocessing it' % (name, [sq(x)[:40] for x in muts]))
         if calls:
+            # must-pass-through: the file entry produces no result of its own — every Ok it returns is what preprocess_str returned for the text
+            # read (an "empty file" / "nothing to do" shortcut hands back a fresh text AND a fresh define table, dropping the caller's)
+            from vlib import paths as _paths
+            own_ = [e_ for e_ in _paths.exits_avoiding(fn['body'], lambda n_: any(n_ is c_ for c_ in calls)) if sx.is_call(e_, 'Ok')]
+            if own_:
+                w6.fail('sv-parser-pp:%s:result-not-from-string-entry' % name, 'sv-parser-pp/%s:%s' % (fl, own_[0].get('l') or fn['l']),
+                        '%s can return `%s` without calling preprocess_str on the text it read: on that path the file entry and the string entry disagree, and the define table '
+                        'handed in (which an `include adopts back) is replaced by whatever this result carries' % (name, sq(own_[0])[:50]))
             if len(calls) != 1 or sq(calls[0]['args'][0]) not in ('&' + buf, buf + '.as_str()', '&*' + buf):
                 w6.fail('sv-parser-pp:%s:text-not-buffer' % name, where_,
                         '%s reads the file into `%s` but hands `%s` to preprocess_str: file and string entry points would disagree' %
